@@ -1,74 +1,17 @@
 /-
-  C11 — FromJSONSchema: a fragment `J0` of JSON Schema documents over the documented keyword
-  table (type string/number/integer/boolean/null/array, min/maxLength, minimum/maximum,
-  items, min/maxItems, anyOf, oneOf, no type), their documents (`J0.doc`, validity by `jsValid`
-  of Model/JsonSchema), and `fromJ0`, a transcription of /repo/jsonschema/from.go on them.
-  Instances reach the produced schema through plain `encoding/json` decoding: every number is a
-  float64, so an `Int()` schema rejects every instance (`plainify`).
+  C11 — FromJSONSchema.
+  * `fromJS`: a transcription of /repo/jsonschema/from.go over the keyword AST `JS` of
+    Model/JsonSchema (documents are judged by its `jsValid`).
+  * `J1`: the structured fragment of documents (canonical keyword order) on which the produced
+    schema is proved equivalent to the document; `J1.doc` embeds it into `JS`, `fromJ1` is the
+    schema FromJSONSchema produces for it.
+  * instances reach the produced schema through plain `encoding/json` decoding: every number
+    is a float64, so an `Int()` schema rejects every instance (`plainify`).
 -/
 import Gozod.Model.JsonSchema
 namespace Gozod.Jsc
 
-inductive J0
-  | str (mn mx : Option Nat)
-  | num (mn mx : Option Int)      -- minimum / maximum, in quarters
-  | int (mn mx : Option Int)      -- minimum / maximum, integers
-  | bool | null | any
-  | arr (items : J0) (mn mx : Option Nat)
-  | anyOf2 (a b : J0)
-  | oneOf2 (a b : J0)
-  deriving Repr
-
-def J0.doc : J0 → JS
-  | .str mn mx => .node (.ofList ([.type .string] ++ optKw mn .minLength ++ optKw mx .maxLength))
-  | .num mn mx => .node (.ofList ([.type .number] ++ optKw mn .minimum ++ optKw mx .maximum))
-  | .int mn mx => .node (.ofList ([.type .integer] ++ optKw mn (fun v => .minimum (4 * v)) ++ optKw mx (fun v => .maximum (4 * v))))
-  | .bool => .node (.ofList [.type .boolean])
-  | .null => nullJS
-  | .any => .node .nil
-  | .arr it mn mx => .node (.ofList ([.type .array, .items it.doc] ++ optKw mn .minItems ++ optKw mx .maxItems))
-  | .anyOf2 a b => .node (.ofList [.anyOf (.cons a.doc (.cons b.doc .nil))])
-  | .oneOf2 a b => .node (.ofList [.oneOf (.cons a.doc (.cons b.doc .nil))])
-
 def optL {α β : Type} (o : Option α) (f : α → β) : List β := match o with | some a => [f a] | none => []
-
-/-- from.go: convertByType / convertString / convertNumber / convertInteger / convertArray /
-    convertAnyOf / convertOneOf (Unknown() for a schema without `type`). -/
-def fromJ0 : J0 → S
-  | .str mn mx => .str (optL mn .min ++ optL mx .max)
-  | .num mn mx => .flt (optL mn .gte ++ optL mx .lte)
-  | .int mn mx => .int .int (optL mn .gte ++ optL mx .lte)
-  | .bool => .bool
-  | .null => .nil
-  | .any => .any
-  | .arr it mn mx => .slice (fromJ0 it) (optL mn .min ++ optL mx .max)
-  | .anyOf2 a b => .union (.cons (fromJ0 a) (.cons (fromJ0 b) .nil))
-  | .oneOf2 a b => .xor (.cons (fromJ0 a) (.cons (fromJ0 b) .nil))
-
-/-- plain decoding: integer schemas (and integer literals) never see an integer-typed value. -/
-def acceptsPlain : J0 → Json → Bool
-  | .int _ _, _ => false
-  | .arr it mn mx, x => match x with
-      | .arr xs => szOk (optL mn .min ++ optL mx .max) xs.length && xs.all (acceptsPlain it)
-      | _ => false
-  | .anyOf2 a b, x => !x.isNull && (acceptsPlain a x || acceptsPlain b x)
-  | .oneOf2 a b, x => !x.isNull && ((if acceptsPlain a x then 1 else 0) + (if acceptsPlain b x then 1 else 0) == 1)
-  | j, x => accepts (fromJ0 j) x
-
-/-- does the produced schema admit nil (Nil(), Unknown()) -/
-def J0.admitsNull : J0 → Bool
-  | .null => true
-  | .any => true
-  | _ => false
-
-/-- the fragment on which FromJSONSchema is an equivalence: no `integer` (rejects every decoded
-    number), no null-admitting member directly under anyOf/oneOf (the union rejects nil first). -/
-def supported : J0 → Bool
-  | .int _ _ => false
-  | .arr it _ _ => supported it
-  | .anyOf2 a b => !a.admitsNull && !b.admitsNull && supported a && supported b
-  | .oneOf2 a b => !a.admitsNull && !b.admitsNull && supported a && supported b
-  | _ => true
 
 /-- keywords of the strict-mode table: (keyword, documented as supported, rejected in strict mode) -/
 structure KwRow where
@@ -171,15 +114,9 @@ def convArray (p : Parts) : R :=
       | .error e => .error e
       | .ok it => .ok (.slice it (optL p.minItems .min ++ optL p.maxItems .max))
 
-/-- `makeOptional`: only these concrete schema types are wrapped. -/
-def makeOptional : S → S
-  | .str cks => .opt (.str cks)
-  | .int .int cks => .opt (.int .int cks)
-  | .flt cks => .opt (.flt cks)
-  | .bool => .opt .bool
-  | .slice e cks => .opt (.slice e cks)
-  | .obj m c pt cks sh => .opt (.obj m c pt cks sh)
-  | s => s
+/-- `makeOptional` (after pending fix C11-object-properties): every schema type is wrapped
+    through its `Optional()` method. -/
+def makeOptional (s : S) : S := .opt s
 
 /-- properties whose conversion returns an error are skipped; a panic is not an error. -/
 def convProps (req : List Str) : List (Str × R) → Except E (List (Str × S))
@@ -191,23 +128,27 @@ def convProps (req : List Str) : List (Str × R) → Except E (List (Str × S))
   | (_, .error .panic) :: _ => .error .panic
   | (_, .error (.unsupported _)) :: r => convProps req r
 
+/-- required names without a (converted) property get an `Unknown()` entry. -/
+def addRequired (req : List Str) (fields : List (Str × S)) : List (Str × S) :=
+  fields ++ ((req.filter (fun k => !(fields.map (·.1)).contains k)).eraseDups.map (fun k => (k, S.any)))
+
 def convObject (p : Parts) : R :=
   match p.properties with
   | some (kv :: kvs) =>
       match convProps p.required (kv :: kvs) with
       | .error e => .error e
       | .ok fields =>
-      let shape := shapeOf fields
+      let shape := shapeOf (addRequired p.required fields)
       match p.addl with
       | some (some false, _) => .ok (.obj .strict .none false [] shape)
-      | some (none, .ok c) => .ok (.obj .strip (.some c) false [] shape)     -- catch-all on a strip-mode object
+      | some (none, .ok c) => .ok (.obj .loose (.some c) false [] shape)     -- Passthrough().WithCatchall(c)
       | some (none, .error .panic) => .error .panic
       | _ => .ok (.obj .strip .none false [] shape)
   | _ =>
       match p.addl with
       | some (_, .error e) => .error e
-      | some (_, .ok v) => .ok (.record (.str []) v [])
-      | none => .ok (.obj .strip .none false [] .nil)
+      | some (_, .ok v) => .ok (.record (.str []) v [])       -- `required` is not read on this path
+      | none => .ok (.obj .strip .none false [] (shapeOf (addRequired p.required [])))
 
 def convOneType (p : Parts) : TypeName → R
   | .string => .ok (convString p)
@@ -235,7 +176,8 @@ def chainAnd : S → List S → S
   | a, [] => a
   | a, b :: rest => chainAnd (.and a b) rest
 
-def litOf (v : Prim) : R := match v with | .null => .error .panic | v => .ok (.lit [v])
+/-- `literalSchema` (after pending fix C11-literal-null): JSON null is the Nil schema. -/
+def litOf (v : Prim) : R := match v with | .null => .ok .nil | v => .ok (.lit [v])
 
 def allStrs : List Prim → Option (List Str)
   | [] => some []
@@ -282,6 +224,11 @@ def assemble (rejects : Str → Bool) (strict : Bool) (p : Parts) : R :=
           | .ok ss => .ok (.union (slistOf ss))
   | _ => convByType p
 
+/-- the value of a boolean schema. -/
+def boolOf : JS → Option Bool
+  | .bool b => some b
+  | _ => none
+
 mutual
 def fromJS (rejects : Str → Bool) (strict : Bool) : JS → R
   | .bool true => .ok .any
@@ -312,7 +259,7 @@ def addKw (rejects : Str → Bool) (strict : Bool) : Kw → Parts → Parts
   | .properties ps, p => { p with properties := some (fromProps rejects strict ps) }
   | .required ks, p => { p with required := ks }
   | .additionalProperties j, p =>
-      { p with addl := some ((match j with | .bool b => some b | _ => none), fromJS rejects strict j) }
+      { p with addl := some (boolOf j, fromJS rejects strict j) }
   | .propertyNames _, p => { p with others := p.others ++ ["propertyNames".toList.map Char.toNat] }
   | .minProperties _, p => { p with others := p.others ++ ["minProperties".toList.map Char.toNat] }
   | .maxProperties _, p => { p with others := p.others ++ ["maxProperties".toList.map Char.toNat] }
@@ -362,5 +309,149 @@ end
 
 /-- Parse verdict of the produced schema on an `encoding/json`-decoded instance. -/
 def acceptsDecoded (s : S) (x : Json) : Bool := accepts (plainify s) x
+
+/-! ## `J1` — the structured fragment of documents the equivalence theorem speaks about -/
+
+mutual
+inductive J1
+  | str (mn mx : Option Nat) (pat : Option Pat)
+  | num (mn mx emn emx mul : Option Int)               -- quarters
+  | bool | null | any | tru | fls
+  | arr (items : J1) (mn mx : Option Nat)
+  | tup (items : J1List)                               -- prefixItems with minItems = maxItems = their number
+  | obj (props : J1Props) (closed : Bool)              -- every property required; additionalProperties false / absent
+  | objC (props : J1Props) (ca : J1)                   -- additionalProperties: <schema>
+  | rcd (v : J1)                                       -- {type: object, additionalProperties: v}
+  | const (p : Prim)
+  | enumS (vs : List Str)
+  | enumP (ps : List Prim)
+  | anyOf (ms : J1List) | oneOf (ms : J1List) | allOf2 (a b : J1)
+  | ref (d : J1)
+  | fmt (name : Str) (good : List Str)
+inductive J1List
+  | nil | cons (d : J1) (ds : J1List)
+inductive J1Props
+  | nil | cons (k : Str) (d : J1) (r : J1Props)
+end
+
+def J1List.length : J1List → Nat
+  | .nil => 0
+  | .cons _ ds => ds.length + 1
+
+def J1Props.keys : J1Props → List Str
+  | .nil => []
+  | .cons k _ r => k :: r.keys
+
+mutual
+/-- the JSON Schema document (canonical keyword order). -/
+def J1.doc : J1 → JS
+  | .str mn mx pat => .node (.ofList ([.type .string] ++ optKw mn .minLength ++ optKw mx .maxLength ++ optKw pat .pattern))
+  | .num mn mx emn emx mul =>
+      .node (.ofList ([.type .number] ++ optKw mn .minimum ++ optKw mx .maximum ++ optKw emn .exclusiveMinimum
+        ++ optKw emx .exclusiveMaximum ++ optKw mul .multipleOf))
+  | .bool => .node (.ofList [.type .boolean])
+  | .null => .node (.ofList [.type .null])
+  | .any => .node .nil
+  | .tru => .bool true
+  | .fls => .bool false
+  | .arr it mn mx => .node (.ofList ([.type .array, .items it.doc] ++ optKw mn .minItems ++ optKw mx .maxItems))
+  | .tup items =>
+      .node (.ofList [.type .array, .prefixItems (docList items), .minItems items.length, .maxItems items.length])
+  | .obj props closed =>
+      .node (.ofList ([.type .object, .properties (docProps props), .required props.keys]
+        ++ (if closed then [.additionalProperties (.bool false)] else [])))
+  | .objC props ca =>
+      .node (.ofList [.type .object, .properties (docProps props), .required props.keys, .additionalProperties ca.doc])
+  | .rcd v => .node (.ofList [.type .object, .additionalProperties v.doc])
+  | .const p => .node (.ofList [.const p])
+  | .enumS vs => .node (.ofList [.enum (vs.map .str)])
+  | .enumP ps => .node (.ofList [.enum ps])
+  | .anyOf ms => .node (.ofList [.anyOf (docList ms)])
+  | .oneOf ms => .node (.ofList [.oneOf (docList ms)])
+  | .allOf2 a b => .node (.ofList [.allOf (.cons a.doc (.cons b.doc .nil))])
+  | .ref d => .node (.ofList [.ref d.doc])
+  | .fmt name good => .node (.ofList [.type .string, .format name good])
+def docList : J1List → JSList
+  | .nil => .nil
+  | .cons d ds => .cons d.doc (docList ds)
+def docProps : J1Props → JSProps
+  | .nil => .nil
+  | .cons k d r => .cons k d.doc (docProps r)
+end
+
+def litsOf : List Prim → SList
+  | [] => .nil
+  | p :: ps => .cons (.lit [p]) (litsOf ps)
+
+mutual
+/-- the schema FromJSONSchema produces for the document (what `fromJS` computes — theorem `c11_conv`). -/
+def fromJ1 : J1 → S
+  | .str mn mx pat => .str (optL mn .min ++ optL mx .max ++ optL pat patCk)
+  | .num mn mx emn emx mul => .flt (optL mn .gte ++ optL mx .lte ++ optL emn .gt ++ optL emx .lt ++ optL mul .mul)
+  | .bool => .bool
+  | .null => .nil
+  | .any => .any
+  | .tru => .any
+  | .fls => .never
+  | .arr it mn mx => .slice (fromJ1 it) (optL mn .min ++ optL mx .max)
+  | .tup items => .tup .none [] (fromJ1L items)
+  | .obj props closed => .obj (if closed then .strict else .strip) .none false [] (fromJ1P props)
+  | .objC props ca => .obj .loose (.some (fromJ1 ca)) false [] (fromJ1P props)
+  | .rcd v => .record (.str []) (fromJ1 v) []
+  | .const p => match p with | .null => .nil | p => .lit [p]
+  | .enumS vs => .enum vs
+  | .enumP ps => .union (litsOf ps)
+  | .anyOf ms => .union (fromJ1L ms)
+  | .oneOf ms => .xor (fromJ1L ms)
+  | .allOf2 a b => .and (fromJ1 a) (fromJ1 b)
+  | .ref d => fromJ1 d
+  | .fmt _ good => .enum good
+def fromJ1L : J1List → SList
+  | .nil => .nil
+  | .cons d ds => .cons (fromJ1 d) (fromJ1L ds)
+def fromJ1P : J1Props → Shape
+  | .nil => .nil
+  | .cons k d r => .cons k (fromJ1 d) (fromJ1P r)
+end
+
+mutual
+/-- the fragment on which the produced schema accepts exactly the valid instances.  Outside it:
+    `integer` (not in `J1` at all), null-admitting union members, optional properties, open tuples,
+    sibling keywords, … — the finding classes of notes/C11.md. -/
+def good : J1 → Bool
+  | .str _ _ _ => true
+  | .num _ _ _ _ mul => (match mul with | some m => decide (0 < m) | none => true)
+  | .arr it _ _ => good it
+  | .tup items => goodL items && decide (0 < items.length)
+  | .obj props _ => goodP props && !props.keys.isEmpty
+  | .objC props ca => goodP props && !props.keys.isEmpty && good ca && !(isBoolDoc ca)
+  | .rcd v => good v
+  | .const _ => true
+  | .enumS vs => !vs.isEmpty
+  | .enumP ps => !ps.isEmpty && (allStrs ps).isNone && !ps.contains .null
+  | .anyOf ms => goodM ms && decide (2 ≤ ms.length)
+  | .oneOf ms => goodM ms && decide (2 ≤ ms.length)
+  | .allOf2 a b =>
+      good a && good b && !(fromJ1 a).acceptsNull && !(fromJ1 b).acceptsNull
+      && !(fromJ1 a).isStrictObj && !(fromJ1 b).isStrictObj
+  | .ref d => good d
+  | .fmt name good => knownFormats.contains name && !good.isEmpty
+  | _ => true
+def goodL : J1List → Bool
+  | .nil => true
+  | .cons d ds => good d && goodL ds
+/-- union members: the union rejects nil before its members are asked. -/
+def goodM : J1List → Bool
+  | .nil => true
+  | .cons d ds => good d && !(fromJ1 d).acceptsNull && goodM ds
+def goodP : J1Props → Bool
+  | .nil => true
+  | .cons _ d r => good d && goodP r
+/-- `additionalProperties: true/false` take other paths of convertObject. -/
+def isBoolDoc : J1 → Bool
+  | .tru => true
+  | .fls => true
+  | _ => false
+end
 
 end Gozod.Jsc
